@@ -483,7 +483,12 @@ class OpGen:
         cands = []
         for ns in m.roots:
             for p, n in m.iter_ns(ns):
-                if n.kind == 'file' and n.blob != 'cat' and not (ns == 'udf' and n.noinode):
+                if n.kind == 'file' and not (ns == 'udf' and n.noinode):
+                    if n.blob == 'cat':
+                        # a name of the boot catalog may be unlinked like any other name
+                        if self.ra.random() < 0.5:
+                            cands.append((ns, p))
+                        continue
                     if not M.hide_ok(m, n):
                         continue
                     cands.append((ns, p))
@@ -536,6 +541,11 @@ class OpGen:
                     nm = self._new_iso_name(parent, False)
                     if nm is not None:
                         op['iso'] = M.join(parent, nm)
+                        if m.has('joliet') and r.random() < 0.5:
+                            jp = self._pick_dir('joliet')
+                            jn = self._new_uni_name('joliet', jp, 64)
+                            if jn is not None:
+                                op['joliet'] = M.join(jp, jn)
         return op
 
     def g_hide(self):
